@@ -44,3 +44,14 @@ Definition ft_bidi_proh : N := 2%N.
 Definition ft_bidi_negotiable : bool := true.
 
 Definition ns_bidi_select : bytes := hex "75726e3a786d70703a62696469". (* urn:xmpp:bidi *)
+
+(* ---- every assignment to a session's state bits in session.go, features.go, negotiator.go:
+        (file, function, operator, right-hand side) ---- *)
+Definition state_writes : list (bytes * bytes * bytes * bytes) := [
+  (hex "73657373696f6e2e676f", hex "6e65676f746961746553657373696f6e", hex "7c3d", hex "536563757265") (* session.go negotiateSession: s.state |= Secure *);
+  (hex "73657373696f6e2e676f", hex "6e65676f746961746553657373696f6e", hex "265e3d", hex "5265616479") (* session.go negotiateSession: s.state &^= Ready *);
+  (hex "73657373696f6e2e676f", hex "6e65676f746961746553657373696f6e", hex "7c3d", hex "6d61736b") (* session.go negotiateSession: s.state |= mask *);
+  (hex "73657373696f6e2e676f", hex "636c6f736553657373696f6e", hex "7c3d", hex "4f757470757453747265616d436c6f736564") (* session.go closeSession: s.state |= OutputStreamClosed *);
+  (hex "73657373696f6e2e676f", hex "636c6f7365496e70757453747265616d", hex "7c3d", hex "496e70757453747265616d436c6f736564") (* session.go closeInputStream: s.state |= InputStreamClosed *);
+  (hex "66656174757265732e676f", hex "6e65676f74696174654665617475726573", hex "7c3d", hex "6d61736b20265e205265616479") (* features.go negotiateFeatures: s.state |= mask &^ Ready *)
+].
